@@ -37,6 +37,7 @@ SIDECARS = {
     'tbr': 'mmverif.contracts.tbr_spec',
 }
 
+INCLUDE_FOREIGN = os.environ.get('MMVERIF_OWN_TAGS_ONLY', '') == ''
 CACHE_DIR = os.path.join(common.VERIF, '.cache', 'obl')
 USE_CACHE = os.environ.get('MMVERIF_NOCACHE', '') == ''
 
@@ -221,6 +222,7 @@ def prove(targets, props=None, timeout_ms=10000, use_cvc5='fallback'):
   """
   res = ProofResult()
   t0 = time.time()
+  done = set()
   if USE_CACHE:
     prune_cache()
   for modname, quals, with_lemmas in targets:
@@ -232,6 +234,9 @@ def prove(targets, props=None, timeout_ms=10000, use_cvc5='fallback'):
                'tbr_iroas': getattr(side, 'IROAS_FUNCTIONS', None)}.get(
                    modname) or side.FUNCTIONS
     for q in quals:
+      if (modname, q) in done:
+        continue          # listed by two target entries
+      done.add((modname, q))
       try:
         res.units.append(verify_cached(modname, q))
       except EngineError as e:
@@ -253,7 +258,13 @@ def prove(targets, props=None, timeout_ms=10000, use_cvc5='fallback'):
   selected = []
   for u in res.units:
     for o in u.obligations:
-      if props is not None and o.props and not (set(o.props) & set(props)):
+      # obligations tagged for other properties only are solved as well: the
+      # engine ASSUMES an obligation after emitting it, so the obligations of
+      # this property later on the same path were proved under it.  They are
+      # reported (by props/base.py) only when they are not discharged.
+      o.foreign = bool(props is not None and o.props and
+                       not (set(o.props) & set(props)))
+      if o.foreign and not INCLUDE_FOREIGN:
         continue
       selected.append((u, o))
   t1 = time.time()
